@@ -99,6 +99,24 @@ def handle : Drv.Handler
         let full := sts.any (fun s => countCrashed s.crashed == sys.maxCrashes)
         let zero := sts.any (fun s => s.crashed[0]? == some true)
         pure s!"closed {sts.length} {SExp.list (vecs.map bits)} {Drv.bstr full} {Drv.bstr zero}"
+  -- the checker's visited set (implementation output) against the structural reachable set of the specification
+  | "o-reach", [sys, bound, visited] => do
+    let sys ← sys? sys; let bound ← bound.nat?
+    let visited ← visited.list?
+    match walk sys bound with
+    | none => pure "reference semantics panics"
+    | some w =>
+      if w.records.size != w.states.size then pure "reference reachable set not closed under the bound"
+      else
+        let ref := (w.states.toList.map (fun s => toString (ofSt s))).mergeSort (· ≤ ·)
+        let got := (visited.map toString).mergeSort (· ≤ ·)
+        pure (if got == ref then "ok"
+          else if got.eraseDups.length != got.length then "the checker visited a state twice"
+          else match ref.find? (fun s => !got.contains s) with
+            | some s => s!"reachable state never visited by the checker: {s}"
+            | none => match got.find? (fun s => !ref.contains s) with
+              | some s => s!"checker visited an unreachable state: {s}"
+              | none => "visited multiset differs from the reachable set")
   | "o-crash", [sys, states, recs] => do
     let sys ← sys? sys
     let states ← states.listOf? st?
